@@ -271,6 +271,17 @@ fn rsa_keys(rng: &mut Rng) -> Option<Vec<ZKey>> {
     Some(vec![ZKey { secret, dnskey: rec.data().clone() }])
 }
 
+/// A copy of a key (the secret has no Clone: through its BIND text form).
+fn clone_key(k: &ZKey) -> ZKey {
+    let text = format!("{}", k.secret.display_as_bind());
+    ZKey { secret: SecretKeyBytes::parse_from_bind(&text).expect("a key's own BIND form parses"), dnskey: k.dnskey.clone() }
+}
+
+/// A copy of a zone that has not been signed yet.
+fn clone_zone(z: &SZone) -> SZone {
+    SZone { apex: z.apex.clone(), signed: z.signed, keys: z.keys.iter().map(clone_key).collect(), denial: z.denial.clone(), sets: z.sets.clone(), owners: z.owners.clone(), nsec3_index: z.nsec3_index.clone() }
+}
+
 fn gen_denial(rng: &mut Rng) -> Denial {
     match rng.below(3) {
         0 => Denial::Nsec,
@@ -324,6 +335,8 @@ fn fill_leaf(rng: &mut Rng, z: &mut SZone, other_zone_target: &[u8]) {
     z.insert(&nm(&[b"alias"], &apex), T_CNAME, 60, vec![nm(&[b"www"], &apex)]);
     z.insert(&nm(&[b"walias"], &apex), T_CNAME, 60, vec![nm(&[b"x", b"w"], &apex)]);
     z.insert(&nm(&[b"out"], &apex), T_CNAME, 60, vec![other_zone_target.to_vec()]);
+    // a wildcard that holds a CNAME: the CNAME itself is synthesised
+    z.insert(&nm(&[b"*", b"wc"], &apex), T_CNAME, 90, vec![nm(&[b"www"], &apex)]);
     z.insert(&nm(&[b"deep", b"ent"], &apex), T_AAAA, 300, vec![vec![0x20, 1, 0xd, 0xb8, 0, 0, 0, 0, 0, 0, 0, 0, 0, 0, 0, rng.u8()]]);
     if rng.bool() {
         z.insert(&nm(&[b"mail"], &apex), T_TXT, 900, vec![txt_rd("v=spf1 -all")]);
@@ -353,6 +366,12 @@ fn alg_params(name: &str) -> GenerateParams {
 }
 
 fn build_world(rng: &mut Rng) -> Result<(World, WorldSpec), String> {
+    let (zones, odd_alg) = build_zones(rng, 3600);
+    finish_world(zones, odd_alg)
+}
+
+/// The zones of a world before signing. `sec_ds_ttl` is the TTL of the DS RRset of `secure.test.`.
+fn build_zones(rng: &mut Rng, sec_ds_ttl: u32) -> (Vec<SZone>, &'static str) {
     let root_keys = gen_keys(rng, &GenerateParams::EcdsaP256Sha256);
     let tld_keys = gen_keys(rng, &GenerateParams::EcdsaP256Sha256);
     let mut root = base_zone(b"\x00", true, root_keys, gen_denial(rng));
@@ -383,7 +402,7 @@ fn build_world(rng: &mut Rng) -> Result<(World, WorldSpec), String> {
         tld.insert(child, T_NS, 3600, vec![nm(&[b"ns"], child)]);
         tld.insert(&nm(&[b"ns"], child), T_A, 3600, vec![vec![192, 0, 2, 54]]);
         if let Some(k) = zone_keys {
-            tld.insert(child, T_DS, 3600, vec![ds_rdata(child, k)]);
+            tld.insert(child, T_DS, if *child == sec_apex { sec_ds_ttl } else { 3600 }, vec![ds_rdata(child, k)]);
         }
     }
     tld.insert(&nm(&[b"plain"], &tld_apex), T_TXT, 300, vec![txt_rd("tld data")]);
@@ -391,7 +410,10 @@ fn build_world(rng: &mut Rng) -> Result<(World, WorldSpec), String> {
     root.insert(&tld_apex, T_NS, 3600, vec![nm(&[b"ns"], &tld_apex)]);
     root.insert(&tld_apex, T_DS, 3600, vec![ds_rdata(&tld_apex, &tld.keys[0].dnskey)]);
     root.insert(&nm(&[b"ns"], &tld_apex), T_A, 3600, vec![vec![192, 0, 2, 55]]);
-    let mut zones = vec![root, tld, sec, ins, odd, sec2];
+    (vec![root, tld, sec, ins, odd, sec2], odd_alg)
+}
+
+fn finish_world(mut zones: Vec<SZone>, odd_alg: &'static str) -> Result<(World, WorldSpec), String> {
     for z in zones.iter_mut() {
         finish_zone(z)?;
     }
@@ -410,6 +432,8 @@ struct Resp {
     authority: Vec<RR>,
     /// what kind of answer this is (for coverage and fault selection)
     kind: &'static str,
+    /// some link of the answer was synthesised from a wildcard (so a proof that the name itself does not exist is part of it)
+    wild: bool,
 }
 
 fn push_set(out: &mut Vec<RR>, s: &Set, owner_override: Option<&[u8]>) {
@@ -651,6 +675,7 @@ impl World {
                     Some(t) => {
                         let s = z.get(&star, t).unwrap();
                         push_set(&mut out.answer, s, Some(&sname_));
+                        out.wild = true;
                         // proof that the name itself does not exist
                         if z.signed {
                             match &z.denial {
@@ -1166,6 +1191,8 @@ fn queries(world: &World) -> Vec<(Vec<u8>, u16, usize)> {
             (vec![&b"ent"[..]], T_A),      // ent nodata
             (vec![&b"alias"[..]], T_A),    // cname
             (vec![&b"walias"[..]], T_A),   // cname to wildcard
+            (vec![&b"foo"[..], b"wc"], T_A),   // cname synthesised from a wildcard, then data
+            (vec![&b"bar"[..], b"wc"], T_AAAA), // ... then nodata
             (vec![&b"out"[..]], T_A),      // cname to another zone
             (vec![&b"out2"[..]], T_A),
             (vec![&b"www"[..], b"dn"], T_A),      // through a DNAME into another zone
@@ -1269,7 +1296,7 @@ fn one_world(c: &mut Ctx, rt: &tokio::runtime::Runtime, fam: &str, idx: u64) {
             s
         };
         let optout = |zi: usize| matches!(world.zones[zi].denial, Denial::Nsec3 { opt_out: true, .. });
-        let has_cover = resp.authority.iter().any(|x| x.1 == T_NSEC3) && (matches!(resp.kind, "nxdomain" | "wildcard" | "nodata-wildcard" | "cname-wildcard" | "cname-nxdomain") || (resp.kind == "nodata" && World::nsec3_match(&world.zones[fz], &q.0).is_none() && zones_on_chain.len() == 1));
+        let has_cover = resp.authority.iter().any(|x| x.1 == T_NSEC3) && (matches!(resp.kind, "nxdomain" | "wildcard" | "nodata-wildcard" | "cname-wildcard" | "cname-nxdomain") || (resp.kind == "nodata" && World::nsec3_match(&world.zones[fz], &q.0).is_none() && zones_on_chain.len() == 1) || resp.wild);
         let mut either = false;
         if want == "Secure" && has_cover && zones_on_chain.iter().any(|zi| optout(*zi)) {
             if zones_on_chain.len() == 1 {
@@ -1323,10 +1350,10 @@ fn one_world(c: &mut Ctx, rt: &tokio::runtime::Runtime, fam: &str, idx: u64) {
                 continue;
             }
             // dropping a proof of a positive non-wildcard answer changes nothing that matters
-            if matches!(*f, "drop-proof" | "drop-all-proofs") && !matches!(resp.kind, "nodata" | "nodata-ent" | "nodata-wildcard" | "nxdomain" | "wildcard" | "cname-nodata" | "cname-nxdomain" | "cname-wildcard") {
+            if matches!(*f, "drop-proof" | "drop-all-proofs") && !matches!(resp.kind, "nodata" | "nodata-ent" | "nodata-wildcard" | "nxdomain" | "wildcard" | "cname-nodata" | "cname-nxdomain" | "cname-wildcard") && !(resp.wild && *f == "drop-all-proofs") {
                 continue;
             }
-            if *f == "drop-proof" && matches!(resp.kind, "cname-nodata" | "cname-nxdomain" | "cname-wildcard") {
+            if *f == "drop-proof" && (matches!(resp.kind, "cname-nodata" | "cname-nxdomain" | "cname-wildcard") || resp.wild && resp.kind == "cname") {
                 continue; // which proof belongs to which link of the chain is not tracked here
             }
             let wire2 = to_wire(rng.u16(), &q.0, q.1, &r2);
@@ -1436,7 +1463,7 @@ fn one_world(c: &mut Ctx, rt: &tokio::runtime::Runtime, fam: &str, idx: u64) {
         let owners = World::nsec_owners(ch);
         let (Some(last), Some(soa), Some(apex_nsec)) = (owners.last().and_then(|o| ch.get(o, T_NSEC)), tld.get(&tld.apex, T_SOA), tld.get(&tld.apex, T_NSEC)) else { continue };
         let qname = nm(&[b"zzz"], &tld.apex);
-        let mut r = Resp { rcode: 3, answer: vec![], authority: vec![], kind: "nxdomain" };
+        let mut r = Resp { rcode: 3, answer: vec![], authority: vec![], kind: "nxdomain", wild: false };
         push_set(&mut r.authority, soa, None);
         push_set(&mut r.authority, apex_nsec, None);
         push_set(&mut r.authority, last, None);
@@ -1456,8 +1483,146 @@ fn one_world(c: &mut Ctx, rt: &tokio::runtime::Runtime, fam: &str, idx: u64) {
     }
 }
 
+/// An upstream that serves one world and, once switched, another.
+struct SwitchUp {
+    a: Arc<World>,
+    b: Arc<World>,
+    use_b: Arc<std::sync::atomic::AtomicBool>,
+    requests: Arc<AtomicU64>,
+}
+
+impl SendRequest<RequestMessage<Vec<u8>>> for SwitchUp {
+    fn send_request(&self, request_msg: RequestMessage<Vec<u8>>) -> Box<dyn GetResponse + Send + Sync> {
+        self.requests.fetch_add(1, Ordering::SeqCst);
+        let Ok(msg) = request_msg.to_message() else { return Box::new(Pending(None)) };
+        let Ok(q) = msg.sole_question() else { return Box::new(Pending(None)) };
+        let qname = q.qname().to_vec().as_slice().to_vec();
+        let qtype = q.qtype().to_int();
+        let world = if self.use_b.load(Ordering::SeqCst) { &self.b } else { &self.a };
+        let r = world.respond(&qname, qtype);
+        match Message::from_octets(Bytes::from(to_wire(msg.header().id(), &qname, qtype, &r))) {
+            Ok(m) => Box::new(Pending(Some(Ok(m)))),
+            Err(_) => Box::new(Pending(None)),
+        }
+    }
+}
+
+/// A key of `secure.test.` is withdrawn: the parent replaces the DS RRset (TTL one second) and
+/// the child its DNSKEY RRset, everything is signed afresh. One validation context lives through
+/// it. Once the old DS RRset has run out, answers signed with the withdrawn key are no longer
+/// secure and answers signed with the new key are. (The validator's caches run on
+/// std::time::Instant: the second is a real one.)
+fn rollover_case(c: &mut Ctx, rt: &tokio::runtime::Runtime, fam: &str, idx: u64) {
+    let mut rng = c.case_rng(fam, idx);
+    ctx::step("build rollover worlds");
+    let built = ctx::catch(|| -> Result<(World, World), String> {
+        let (za, odd_alg) = build_zones(&mut rng, 1);
+        let mut zb: Vec<SZone> = za.iter().map(clone_zone).collect();
+        zb[2].keys = gen_keys(&mut rng, &GenerateParams::EcdsaP256Sha256);
+        let sec_apex = zb[2].apex.clone();
+        let ds = ds_rdata(&sec_apex, &zb[2].keys[0].dnskey);
+        zb[1].insert(&sec_apex, T_DS, 1, vec![ds]);
+        let (wa, _) = finish_world(za, odd_alg)?;
+        let (wb, _) = finish_world(zb, odd_alg)?;
+        Ok((wa, wb))
+    });
+    let (wa, wb) = match built {
+        Ok(Ok(x)) => x,
+        Ok(Err(e)) => {
+            c.note(&format!("harness: rollover worlds not built: {}", e));
+            return;
+        }
+        Err(pi) => {
+            c.violation(&format!("panic:{}", pi.site()), &format!("panic while signing the rollover worlds: {} at {}:{}", pi.msg, pi.file, pi.line), c.replay_of(fam, idx, json!({})));
+            return;
+        }
+    };
+    let (wa, wb) = (Arc::new(wa), Arc::new(wb));
+    let qname = nm(&[*rng.pick(&[&b"www"[..], b"alias", b"nope", b"mail"])], &wa.zones[2].apex);
+    let qtype = *rng.pick(&[T_A, T_TXT]);
+    let old_wire = to_wire(rng.u16(), &qname, qtype, &wa.respond(&qname, qtype));
+    let new_wire = to_wire(rng.u16(), &qname, qtype, &wb.respond(&qname, qtype));
+    // a positive answer from another secure zone whose signature runs out in a second
+    let (exp_wire, exp_name) = {
+        let z = &wa.zones[5];
+        let n = nm(&[b"www"], &z.apex);
+        let mut r = wa.respond(&n, T_A);
+        let now = now_secs();
+        let ok = resign(&wa, &mut r, &n, T_A, None, None, now - 3600, now + 1);
+        (if ok { Some(to_wire(rng.u16(), &n, T_A, &r)) } else { None }, n)
+    };
+    let use_b = Arc::new(std::sync::atomic::AtomicBool::new(false));
+    let requests = Arc::new(AtomicU64::new(0));
+    let up = SwitchUp { a: wa.clone(), b: wb.clone(), use_b: use_b.clone(), requests: requests.clone() };
+    let Ok(ta) = TrustAnchors::from_u8(wa.anchor_text.as_bytes()) else { return };
+    let ex = json!({"query": format!("{} TYPE{}", w::name_text(&qname), qtype)});
+    let r = ctx::catch(|| {
+        let vc = ValidationContext::new(ta, up);
+        let mut states: Vec<&'static str> = Vec::new();
+        let mut run = |wire: &[u8]| -> &'static str {
+            let Ok(mut m) = Message::from_octets(wire.to_vec()) else { return "short" };
+            match rt.block_on(vc.validate_msg::<Vec<u8>, Vec<u8>>(&mut m)) {
+                Ok((s, _)) => state_name(s),
+                Err(_) => "Error",
+            }
+        };
+        states.push(run(&old_wire));
+        let e0 = exp_wire.as_ref().map(|w| run(w)).unwrap_or("none");
+        use_b.store(true, Ordering::SeqCst);
+        std::thread::sleep(std::time::Duration::from_millis(2300));
+        states.push(run(&old_wire));
+        states.push(run(&new_wire));
+        states.push(e0);
+        states.push(exp_wire.as_ref().map(|w| run(w)).unwrap_or("none"));
+        states
+    });
+    let states = match r {
+        Ok(s) => s,
+        Err(pi) => {
+            c.violation(&format!("panic:{}", pi.site()), &format!("panic validating across a key withdrawal: {} at {}:{}", pi.msg, pi.file, pi.line), c.replay_of(fam, idx, ex));
+            return;
+        }
+    };
+    // (an opt-out zone makes some of these answers Insecure from the start)
+    if states[0] != "Secure" && states[0] != "Insecure" {
+        c.violation(&format!("rollover:before:{}", states[0]), &format!("before the key withdrawal the honest answer validates as {}", states[0]), c.replay_of(fam, idx, ex));
+        return;
+    }
+    if states[0] == "Secure" {
+        if states[1] == "Secure" {
+            c.violation("secure-after-ds-withdrawn", &format!("{} s after the parent replaced the DS RRset (TTL 1 s) an answer signed with the withdrawn key still validates as Secure ({} upstream requests in all)", 2.3, requests.load(Ordering::SeqCst)), c.replay_of(fam, idx, ex));
+            return;
+        }
+        if states[2] != "Secure" {
+            c.violation(&format!("rollover:new-key-answer:{}", states[2]), &format!("after the old DS RRset ran out, an answer signed with the new, properly chained key validates as {}", states[2]), c.replay_of(fam, idx, ex));
+            return;
+        }
+        c.count("rollover_withdrawn_key_refused", 1);
+    }
+    // the signature that was good a moment ago has run out meanwhile
+    if states[3] == "Secure" {
+        if states[4] == "Secure" {
+            c.violation("secure-with-expired-signature:validated-before-it-expired", &format!("an answer ({} A) validated as Secure while its signature was within its validity period still validates as Secure by the same validation context more than a second after the signature expired", w::name_text(&exp_name)), c.replay_of(fam, idx, ex));
+            return;
+        }
+        c.count("expired_after_first_validation_refused", 1);
+    }
+    c.count("rollover_cases", 1);
+    c.eval(&("rollover", states[0], states[1], states[2], states[3], states[4], qtype));
+}
+
 pub fn run(c: &mut Ctx) {
     let rt = tokio::runtime::Builder::new_current_thread().enable_all().build().unwrap();
+    c.families(2);
+    let fam = "rollover";
+    let total = c.total(32, 640);
+    for idx in c.cases(fam, total) {
+        if c.out_of_time() {
+            break;
+        }
+        ctx::slot_write(idx, "C14 rollover", &[]);
+        rollover_case(c, &rt, fam, idx);
+    }
     let fam = "worlds";
     let total = c.total(64, 4_000);
     for idx in c.cases(fam, total) {
@@ -1468,7 +1633,7 @@ pub fn run(c: &mut Ctx) {
         one_world(c, &rt, fam, idx);
     }
     if !c.replaying() {
-        for k in ["honest:positive", "honest:wildcard", "honest:nodata", "honest:nodata-ent", "honest:nodata-wildcard", "honest:nxdomain", "honest:cname", "damaged:corrupt-signature", "damaged:drop-proof", "damaged:expired", "upstream:corrupt-signature", "upstream:servfail"] {
+        for k in ["honest:positive", "honest:wildcard", "honest:nodata", "honest:nodata-ent", "honest:nodata-wildcard", "honest:nxdomain", "honest:cname", "damaged:corrupt-signature", "damaged:drop-proof", "damaged:expired", "upstream:corrupt-signature", "upstream:servfail", "rollover_withdrawn_key_refused", "expired_after_first_validation_refused"] {
             c.floor(k, 3);
         }
     }
